@@ -24,6 +24,11 @@ def declared_theorems(pid):
 class Prop:
     pid = None
     title = ''
+    # True: the property fixes the output the model computes (an iff / exact-bytes / exact-value property), so an implementation that
+    # differs from the proved model on the projection fails the property on that input.  False: the property is a predicate on the
+    # implementation's own behaviour (never panics, bytes retained, fixed point, ...): a difference from the model breaks the
+    # correspondence (the theorems no longer speak about this code) but is not by itself a failing input.
+    model_is_spec = True
     def gen(self, seed, tier): return []
     def projection(self, o, line):
         """what of an output line this property compares (default: the whole line, NaNs canonicalised)"""
@@ -37,7 +42,7 @@ class Prop:
         if why: return ('fail', why)
         if model is None: return None
         if self.projection(o, impl) != self.projection(o, model):
-            return ('fail', 'implementation and proved model differ')
+            return ('fail' if self.model_is_spec else 'drift', 'implementation and proved model differ')
         return None
     def classify(self, o, impl):
         k = o.get('meta', {}).get('k', o['op'].split(' ')[0])
